@@ -353,7 +353,12 @@ def form(b, rng):
     """a (lo,hi) pair in one of the value forms the API accepts"""
     r = rng.random()
     if b[0] == b[1] and r < 0.5:
-        return int(b[0]) if r < 0.4 else np.int64(b[0])
+        if r < 0.36:
+            return int(b[0])
+        v = int(b[0])       # a numpy integer scalar of some width that holds the value
+        types = [np.int64] + ([np.int32] if -2 ** 31 <= v < 2 ** 31 else []) + ([np.int16] if -2 ** 15 <= v < 2 ** 15 else []) \
+            + ([np.int8] if -128 <= v < 128 else []) + ([np.uint8] if 0 <= v < 256 else [])
+        return types[int(r * 1000) % len(types)](v)
     return tuple(b) if r < 0.8 else puan.Bounds(b[0], b[1])
 
 def forms(d, rng):
